@@ -368,9 +368,35 @@ fn slice_level(r: &Run) {
 }
 
 fn bitmap_level(r: &Run) {
-    for (bytes, page) in [(0usize, 1usize), (1, 1), (130, 1), (64 * 4096, 4096), (64 * 4096 + 1, 4096), (100, 7), (5, 4096), (1 << 20, 3)] {
-        let bm = AtomicBitmap::new(bytes, NonZeroUsize::new(page).unwrap());
-        let mut vals = count_set(&[bytes, bytes / page.max(1), page, 64 * page]);
+    // (initial byte size, page size, amounts the bitmap is enlarged by afterwards - a program
+    // action; what is probed with guest-controlled values is the bitmap it leaves behind)
+    let configs: Vec<(usize, usize, Vec<usize>)> = vec![
+        (0, 1, vec![]),
+        (1, 1, vec![]),
+        (130, 1, vec![]),
+        (64 * 4096, 4096, vec![]),
+        (64 * 4096 + 1, 4096, vec![]),
+        (100, 7, vec![]),
+        (5, 4096, vec![]),
+        (1 << 20, 3, vec![]),
+        // growth by a part of a page, within a word, across a word boundary, in several steps
+        (64 * 4096, 4096, vec![0x800]),
+        (64 * 4096, 4096, vec![4096]),
+        (63 * 4096, 4096, vec![0x800, 0x800, 1]),
+        (59 * 4096 + 2048, 4096, vec![4 * 4096 + 2500]),
+        (60, 1, vec![3, 1, 1, 64]),
+        (0, 7, vec![1, 6, 1]),
+        (128 * 3, 3, vec![1, 1, 1, 1]),
+        (1, 4096, vec![4095, 1]),
+    ];
+    for (bytes0, page, grow) in configs {
+        let mut bm = AtomicBitmap::new(bytes0, NonZeroUsize::new(page).unwrap());
+        for g in &grow {
+            bm.enlarge(*g);
+        }
+        let bm = bm;
+        let bytes = bytes0 + grow.iter().sum::<usize>();
+        let mut vals = count_set(&[bytes, bytes0, bytes / page.max(1), bytes.div_ceil(page.max(1)), page, 64 * page]);
         vals.extend([usize::MAX / 2, usize::MAX / page, (usize::MAX / page).saturating_add(1)]);
         r.call("bitmap.queries", bytes as u64, page as u64, 0, || {
             let _ = bm.len();
@@ -415,8 +441,8 @@ fn bitmap_level(r: &Run) {
 pub fn run(tier: Tier, replay: Option<String>) -> i32 {
     let ctx = crate::new_ctx("C07", tier, "exploration", &replay);
     let profile: &'static str = if cfg!(debug_assertions) { "overflow-checked (dev) profile" } else { "release profile (overflow checks off)" };
-    ctx.set_rule("every public access/query entry point of guest memory (mmap collection and trait-default implementation), regions, volatile slices, typed/array/atomic accessors, bitmaps and stream helpers x every address in {0, 1, region starts/ends +-1, 2^32+-1, 2^63+-1, 2^64-9..2^64-1} x every count/offset/element count in {0,1,2,7,8,9, every region/slice length +-1, values around isize::MAX and usize::MAX, pointer-overflowing values} x layouts with regions of 1 and 4097 bytes at the bottom, in the middle and at the very top of the address space; every call runs under catch_unwind plus a SIGABRT/SIGSEGV/SIGFPE handler and a watchdog (no progress for 20 s = endless loop), in the overflow-checked profile and in the release profile. Outcome required: the call returns (Ok or Err). One case = one call group; non-trivial = at least one argument beyond 4096; distinct by construction.");
-    ctx.assume("program-controlled arguments (element type, enlarge amount, non-power-of-two alignment, out-of-range array index - the documented panic) are not in the alphabet");
+    ctx.set_rule("every public access/query entry point of guest memory (mmap collection and trait-default implementation), regions, volatile slices, typed/array/atomic accessors, bitmaps (fresh and after enlarge by page parts, within and across a 64-page word) and stream helpers x every address in {0, 1, region starts/ends +-1, 2^32+-1, 2^63+-1, 2^64-9..2^64-1} x every count/offset/element count in {0,1,2,7,8,9, every region/slice length +-1, values around isize::MAX and usize::MAX, pointer-overflowing values} x layouts with regions of 1 and 4097 bytes at the bottom, in the middle and at the very top of the address space; every call runs under catch_unwind plus a SIGABRT/SIGSEGV/SIGFPE handler and a watchdog (no progress for 20 s = endless loop), in the overflow-checked profile and in the release profile. Outcome required: the call returns (Ok or Err). One case = one call group; non-trivial = at least one argument beyond 4096; distinct by construction.");
+    ctx.assume("program-controlled arguments (element type, the amount a bitmap is enlarged by - bitmaps that were enlarged are probed like fresh ones -, non-power-of-two alignment, out-of-range array index - the documented panic) are not in the alphabet");
     if ctx.replay_of.is_some() {
         println!("replay: deterministic enumeration; re-running it");
     }
